@@ -65,6 +65,15 @@ class MultiLinkStream(HistStream):
                 for _ in range(80 if tier == "quick" else 1000)]
 
 
+class ExposeWireStream(HistStream):
+    """a pin is exposed while free, then wired, then the partner is cut: the exposure stays"""
+    name = "expose_wire"
+
+    def generate(self, rng, tier):
+        return [wirelib.gen_history(rng, nstruct=rng.randint(2, 4), scenario="expose_wire")
+                for _ in range(60 if tier == "quick" else 800)]
+
+
 def m_readd_after_cut(st, d, v):
     return False
 
@@ -77,7 +86,7 @@ TRUSTED = [
 ]
 
 if __name__ == "__main__":
-    main("C07", [HistStream(), HubStream(), MultiLinkStream()],
+    main("C07", [HistStream(), HubStream(), MultiLinkStream(), ExposeWireStream()],
          level_text="props/C07.v: the invariant relating the solver's tables (connections, connections_list, free_pins) to the "
                     "present structures is preserved by every operation, hence holds after every history; free pins are exactly "
                     "the unconnected pins of the remaining components. The tie replays random add/connect/cut/remove/re-add/"
